@@ -9,7 +9,7 @@ from typing import Any
 from simkfac import hp as hpmod, models, sched
 from simkfac.ref import RefKFAC
 
-WORLDS_QUICK = [1, 2, 2, 3, 4, 4, 6]
+WORLDS_QUICK = [1, 2, 2, 2, 3, 4, 4, 4, 6, 6, 8]
 WORLDS_THOROUGH = [1, 2, 2, 3, 4, 4, 6, 8, 8, 12, 16]
 
 
